@@ -64,7 +64,9 @@ func big(n int, seed byte) []byte {
 }
 
 func scenarios(thorough bool) []*scenario {
-	mk := func(name string, prefix []ops.Op, op ops.Op) *scenario { return &scenario{Name: name, Prefix: prefix, Op: op} }
+	mk := func(name string, prefix []ops.Op, op ops.Op) *scenario {
+		return &scenario{Name: name, Prefix: prefix, Op: op}
+	}
 	put := func(n, v string) ops.Op { return ops.Op{Kind: ops.Put, Name: n, Value: []byte(v)} }
 	three := []ops.Op{put("a", "a-one"), put("a", "a-two"), put("a", "a-three"), put("b", "b-one")}
 	out := []*scenario{
